@@ -350,6 +350,13 @@ func init() {
 			return s
 		}
 		if c.Replay != nil {
+			if raw, ok := c.Replay["inert_block"].([]any); ok {
+				n, kind := int(raw[0].(float64)), int(raw[1].(float64))
+				inert := []string{"! c", "", "##.ad"}[kind]
+				content := "||before.test^\n0.0.0.0 before.test\n" + strings.Repeat(inert+"\n", n) + "||after.test^\n0.0.0.0 after.test\n"
+				c11Check(c, []c11List{{2, content, kind == 2}, {1, "||second-list.test^\n", false}}, map[string]any{}, c.Replay)
+				return
+			}
 			if _, ok := c.Replay["two_scanners"]; ok {
 				c11TwoScanners(c)
 				return
@@ -574,6 +581,21 @@ func init() {
 			evals += c11Check(c, c11Synthetic(final), map[string]any{"synthetic": "400 lines", "final": final}, map[string]any{"synthetic_final": final})
 			configs++
 		}
+		// count boundaries: a block of n consecutive lines that yield no rule (comments, blank lines, cosmetic
+		// rules a list loaded with IgnoreCosmetic drops) in front of, between and behind rules
+		{
+			ns := []int{255, 256, 257, 1023, 1024, 1025, 4096}
+			if c.Thorough() {
+				ns = append(ns, 65535, 65536, 65537)
+			}
+			for _, n := range ns {
+				for kind, inert := range []string{"! c", "", "##.ad"} {
+					content := "||before.test^\n0.0.0.0 before.test\n" + strings.Repeat(inert+"\n", n) + "||after.test^\n0.0.0.0 after.test\n"
+					evals += c11Check(c, []c11List{{2, content, kind == 2}, {1, "||second-list.test^\n", false}}, map[string]any{"inert_block": n, "kind": kind}, map[string]any{"inert_block": []int{n, kind}})
+					configs++
+				}
+			}
+		}
 		// every byte value as the last (and as the first) byte of a rule line: three rules, the middle one varies,
 		// each with and without a terminator after the last line (the reference parse decides what is a rule)
 		for b := 1; b < 256; b++ {
@@ -623,7 +645,7 @@ func init() {
 		c.Run.Set("configurations", configs)
 		c.Run.Set("evaluations", evals)
 		c.Run.Set("distinct_nontrivial", configs)
-		c.Run.Set("rule", fmt.Sprintf("every content of <=%d lines over %d line kinds (valid/comment/blank/cosmetic/rejected/hosts/UTF-8/NUL/long lines of 4094..8193 bytes around the 4 KiB block boundaries) x LF/CRLF x final newline x IgnoreCosmetic x String/File backing; every injective assignment of ids from {0,1,-1,2,MaxInt32,MinInt32} to 1..4 lists; every assignment of 5 list shapes (rules, empty, comment-only, ignored cosmetic, one rule) to 1..4 lists; scan vs line-by-line reference, retrieval in reverse/forward/cold/cached order, String vs File engine answers; a garbage collection with the finaliser queue drained before the scan and after the k-th rule (stated set of k; thorough: every 7th of 1200) of a file-backed scanner whose list/storage is no longer referenced; two scanners of one in-memory storage with every split point (k rules of the first, then j of the second, either drained first); every configuration is distinct", maxLines, len(syms)))
+		c.Run.Set("rule", fmt.Sprintf("every content of <=%d lines over %d line kinds (valid/comment/blank/cosmetic/rejected/hosts/UTF-8/NUL/long lines of 4094..8193 bytes around the 4 KiB block boundaries) x LF/CRLF x final newline x IgnoreCosmetic x String/File backing; every injective assignment of ids from {0,1,-1,2,MaxInt32,MinInt32} to 1..4 lists; every assignment of 5 list shapes (rules, empty, comment-only, ignored cosmetic, one rule) to 1..4 lists; scan vs line-by-line reference, retrieval in reverse/forward/cold/cached order, String vs File engine answers; a garbage collection with the finaliser queue drained before the scan and after the k-th rule (stated set of k; thorough: every 7th of 1200) of a file-backed scanner whose list/storage is no longer referenced; blocks of 255..4096 (thorough: ..65537) consecutive comment, blank and ignored cosmetic lines between rules; two scanners of one in-memory storage with every split point (k rules of the first, then j of the second, either drained first); every configuration is distinct", maxLines, len(syms)))
 		c.Run.Set("exhaustive", exhaustive)
 		c.Run.Assumption("rules.NewRule is the line parser on both sides (the property is about scanner, index and stores)")
 		c.Run.Assumption("retrieval happens after the scan has finished; interleaving scan and retrieval on one file list is outside the quantifier")
